@@ -399,6 +399,12 @@ RULES = {
     "R9": "format!/println!/error!/warn! statements dropped",
     "R10": "std::io::Error -> IoError, std::fs::File -> File (environment types)",
     "R11": "loop headers: `for x in e` -> `for x in it: e` with injected invariant; `proof { .. }` hint blocks inserted before a statement (overlay)",
+    "R19": "iterator/slice adapter expressions of the I/O loops -> environment functions with the adapter's meaning as contract: `iovs.iter().map(|iov| iov.len()).collect()` -> iov_lens_of(iovs); `&iovs[k][off..]` -> slice_from(iovs[k], off); `[&[x], &iovs[(k + 1)..]].concat()` -> concat_tail(x, iovs, k + 1); `x += r` with r: &usize -> `x += *r`",
+    "R20": "raw pointers are modelled by their address: `*mut c_void` -> usize; `unsafe fn` -> fn whose REQUIRES is the safety contract",
+    "R21": "`for (i, x) in v.iter().enumerate() {` -> `for i in 0..v.len() { let x = v[i];` (u64 elements, by value: operators on &u64 forward to u64) or `let x = &v[i];`",
+    "R22": "`let mut v = Vec::new();` gets its element type written out (the invariants mention v before inference fixes it)",
+    "R23": "Arc::new(x) -> arc_new(x) (shared immutable handle); thread::Builder..spawn(move || h.run()) -> spawn_worker(h) (opaque)",
+    "R24": "`for (a, b) in xs.iter().zip(ys) {` (ys: Vec by value) -> `for a in xs.iter() { let b = match zip_next(&mut ys) { Some(b) => b, None => break };` (zip's own evaluation order)",
     "R12": "Some(&[fd.as_raw_fd()]) -> fds1(&fd) (one-element descriptor list lent from a File)",
 }
 
@@ -717,12 +723,18 @@ class Unit:
         body = self.rewrite_body(body, body_rw)
         if loops:
             body = inject_loop_invariants(body, loops)
-        for (pat, proof) in (hints or []):
+        for h in (hints or []):
             # proof hints keyed by a statement regex: a `proof { .. }` block is inserted BEFORE the statement
+            # (or AFTER it when the third element is "after")
+            pat, proof = h[0], h[1]
             mm = re.search(pat, body)
             if not mm:
                 raise ExtractError("lost anchor: statement /%s/ for a proof hint in %s" % (pat, fn))
-            body = body[:mm.start()] + "proof { " + proof + " }\n        " + body[mm.start():]
+            mode = h[2] if len(h) > 2 else "before"
+            at = mm.end() if mode == "after" else mm.start()
+            # mode "ghost": a ghost statement (`let ghost v = ..;`) inserted verbatim, visible to later invariants/hints
+            ins = proof if mode == "ghost" else "proof { " + proof + " }"
+            body = body[:at] + "\n        " + ins + "\n        " + body[at:]
             self.rw._count("R11", 1)
         name = rename or fn
         self.functions.append(name)
